@@ -692,3 +692,33 @@ Proof.
   destruct (own_all_spec (fun c => {| cname := cname c; cval := VInt z; cref := cref c |}) (fun _ => eq_refl)
               (List.length (spine h X)) h X 0 NR BD) as [U _]. exact U.
 Qed.
+
+(* ================================================================== depth >= 2, characterised
+   CloneArrayValue copies ONE level: the copy has a spine of its own holding the SAME cells, hence the same
+   inner array objects.  Consequence, for every array (no flatness assumed) and every write on any THIRD array
+   object X - in particular an inner array both names reach: afterwards the copy and the original still denote
+   EQUAL trees.  Together with write_frame (a name that does not reach X is unchanged) this says exactly what a
+   nested write does: it is seen through both names or through neither, never through one only; the two names
+   can only come apart by writes on their own top level. *)
+Lemma clone_then_third_party_write_l : forall n h a X m,
+  a < next h -> noref h X -> bounded h X -> X <> a -> X < next h ->
+  let h1 := fst (clone_array h a) in
+  let b := snd (clone_array h a) in
+  obs n (apply_mut h1 X m) (VArr b) = obs n (apply_mut h1 X m) (VArr a).
+Proof.
+  intros n h a X m La NR BD Xa LX. unfold clone_array, alloc_arr. simpl.
+  set (h1 := {| cells := cells h; arrs := (next h, spine h a) :: arrs h; maps := maps h; next := S (next h) |}).
+  set (b := next h).
+  assert (SX : spine h1 X = spine h X).
+  { unfold spine at 1, h1; simpl. destruct (Nat.eqb_spec (next h) X); [lia|reflexivity]. }
+  assert (NR1 : noref h1 X) by (intros c Hc; rewrite SX in Hc; apply NR; exact Hc).
+  assert (BD1 : bounded h1 X) by (intros c Hc; rewrite SX in Hc; specialize (BD c Hc); simpl; lia).
+  destruct (apply_mut_spec h1 X m NR1 BD1) as [_ U].
+  assert (Sa : spine (apply_mut h1 X m) a = spine h a).
+  { destruct (U a) as [_ [S _]]; [simpl; lia | congruence |].
+    rewrite S. unfold spine at 1, h1; simpl. destruct (Nat.eqb_spec (next h) a); [lia|reflexivity]. }
+  assert (Sb : spine (apply_mut h1 X m) b = spine h a).
+  { destruct (U b) as [_ [S _]]; [simpl; unfold b; lia | unfold b; lia |].
+    rewrite S. unfold spine at 1, h1; simpl. unfold b. rewrite Nat.eqb_refl. reflexivity. }
+  destruct n; simpl; [reflexivity|]. rewrite Sa, Sb. reflexivity.
+Qed.
